@@ -85,6 +85,8 @@ FRAGMENTS = {
                 b'{2} GET#3,1:INPUT#3,U:INPUT#3,V:INPUT#3,U$:PRINT U;V;U$;',
                 b'{3} GET#3,1:INPUT#3,U:PRINT#3,"Q";:PUT#3,2:GET#3,2:LINE INPUT#3,V$:PRINT V$;:CLOSE 3'],
     'append': [b'{0} PRINT#1,"pre":CLOSE 1:OPEN "SEQ.TXT" FOR APPEND AS 1', b'{1} PRINT#1,"app1"', b'{2} PRINT#1,"app2";LOF(1)'],
+    # a file opened for APPEND while it is still empty (position 0 when the session is suspended)
+    'appendnew': [b'{0} OPEN "NEW.TXT" FOR APPEND AS 3', b'{1} W=LOF(3)', b'{2} PRINT#3,"first";W', b'{3} PRINT#3,"second":CLOSE 3'],
     'deffn': [b'{0} DEF FNA(X)=X*2+Y', b'{1} Y=5:PRINT FNA(3);:Y=FNA(Y):PRINT Y;'],
 }
 FRAG_NAMES = sorted(FRAGMENTS)
